@@ -32,10 +32,11 @@ PopEv == /\ More /\ Ev.e = "P" /\ Ev.id # 0
                               /\ agenda' = agenda \ {a}
                               /\ now' = a.due /\ a.due >= now
          /\ l' = l + 1 /\ UNCHANGED <<k, tid>>
-\* step() pops the stop event of run(until=number), which the kernel places on the agenda itself: it is urgent and
-\* nothing scheduled ranks strictly before it (its order among equally ranked urgent entries is not observable here)
-StopPopEv == /\ More /\ Ev.e = "U" /\ Ev.prio = 0 /\ Ev.due >= now
-             /\ \A b \in agenda : ~(b.due < Ev.due \/ (b.due = Ev.due /\ b.prio < Ev.prio))
+\* step() processes an occurrence that was not put on the agenda through schedule() (the stop event of
+\* run(until=number) is placed there by the kernel itself): its priority is not known to the recorder, so all that is
+\* required is that nothing scheduled was due strictly earlier and that the clock does not run backwards
+StopPopEv == /\ More /\ Ev.e = "U" /\ Ev.due >= now
+             /\ \A b \in agenda : ~(b.due < Ev.due)
              /\ now' = Ev.due /\ l' = l + 1 /\ UNCHANGED <<agenda, k, tid>>
 \* step() on an empty agenda
 EmptyEv == /\ More /\ Ev.e = "P" /\ Ev.id = 0 /\ agenda = {}
